@@ -58,7 +58,10 @@ def plan(tier, seed):
 
 
 def shard(ctx):
-    prof = StreamProfile(knobs_fn=knobs, script_len=ctx.params["script_len"], op_weights=op_weights())
+    from ..templates import any_template
+
+    prof = StreamProfile(knobs_fn=knobs, script_len=ctx.params["script_len"], op_weights=op_weights(), templates=any_template)
+    prof.template_prob = 0.35
     run_stream(ctx, prof, [SafetyMonitor(ctx, ninputs=ctx.params["ninputs"])])
 
 
